@@ -156,18 +156,22 @@ def registry(ctx, factory: FuncInfo, enum_name: str):
 
 def run(ctx):
     chk = ctx.chk
-    from .common import check_late_binding
+    from .common import check_late_binding, modules_defining
 
-    check_late_binding(ctx, "R07.k", ("job_shop_lib.dispatching._ready_operation_filters", "job_shop_lib.dispatching._factories"), "the filter")
+    scope = modules_defining(
+        ctx, "job_shop_lib.dispatching",
+        lambda n: n.startswith("filter_") or n in ("ready_operations_filter_factory", "create_composite_operation_filter"),
+    )
+    check_late_binding(ctx, "R07.k", scope, "the filter")
     from .common import check_str_enum_identity
 
-    check_str_enum_identity(ctx, "R07.j", ("job_shop_lib.dispatching._ready_operation_filters", "job_shop_lib.dispatching._factories"), "the filter")
+    check_str_enum_identity(ctx, "R07.j", scope, "the filter")
     from .common import check_loop_variable_leaks
 
-    check_loop_variable_leaks(ctx, "R07.i", ("job_shop_lib.dispatching._ready_operation_filters", "job_shop_lib.dispatching._factories"), "the filter")
+    check_loop_variable_leaks(ctx, "R07.i", scope, "the filter")
     from .common import check_mutable_defaults
 
-    check_mutable_defaults(ctx, "R07.h", ("job_shop_lib.dispatching._ready_operation_filters", "job_shop_lib.dispatching._factories"), "the filter")
+    check_mutable_defaults(ctx, "R07.h", scope, "the filter")
     repo = ctx.repo
     chk.rule("R07.a", "every registered filter returns an order-preserving duplicate-free selection of its `operations` argument on every path")
     chk.rule("R07.b", "the composite filter folds: each filter is applied to the previous output, none skipped, last output returned")
